@@ -1,8 +1,12 @@
 #!/bin/bash
-# usage: tools/collect_seed.sh <sid> : copies /tmp/seedw/<sid>.out into seeded/<sid>, verifies it independently, runs the quick check against it
+# usage: tools/collect_seed.sh <sid> [snapshot dir of /verif to run the check from] : copies /tmp/seedw/<sid>.out into seeded/<sid>,
+# verifies it independently, runs the quick check against it (from the snapshot when given: builders may be editing the working tree)
 cd "$(dirname "$0")/.."
-s=$1
+s=$1; SNAP="${2:-$PWD}"
 [ -f /tmp/seedw/$s.out/patch.diff ] || { echo "$s: no patch"; exit 2; }
 mkdir -p seeded/$s && cp /tmp/seedw/$s.out/{patch.diff,demo.py,meta.json} seeded/$s/
 tools/verify_seed.sh seeded/$s 2>&1 | tail -4
-tools/run_seeded.sh $s quick
+if [ "$SNAP" != "$PWD" ]; then rm -rf "$SNAP/seeded/$s"; cp -r seeded/$s "$SNAP/seeded/$s"; fi
+"$SNAP/tools/run_seeded.sh" $s quick
+[ "$SNAP" != "$PWD" ] && [ -f "$SNAP/seeded/$s/replay.json" ] && cp "$SNAP/seeded/$s/replay.json" seeded/$s/replay.json
+echo "snapshot: $(git -C "$SNAP" rev-parse --short HEAD)"
